@@ -356,6 +356,7 @@ class Tokenizer:
                 if (
                     last_token
                     and isinstance(token, CitationToken)
+                    and token.end > last_token.end
                     and token_is_from_nominative_reporter(last_token)
                 ):
                     # if a token has overlapping matches between a nominative
